@@ -27,6 +27,7 @@ struct World {
   std::vector<ACell> order;                    // current filtration order
   int next_key = 0;
   int next_vertex = 0;
+  bool general = false;  // cells are proposed by propose_general (general Z_2 chain complex) instead of simplices / CW cells
   std::map<std::vector<int>, int> simplex_key;  // sorted vertex set -> key of the (first) cell carrying it
 
   int size() const { return (int)order.size(); }
@@ -76,6 +77,7 @@ struct World {
   // ---------------------------------------------------------------- generation
   // proposes one new cell all of whose facets are present (not added yet).  returns false if nothing could be proposed.
   bool propose(vh::Rng& r, bool cellular, int max_vertices, ACell& out) {
+    if (general) return propose_general(r, out);
     for (int attempt = 0; attempt < 12; ++attempt) {
       std::vector<int> vs;  // present vertex labels
       for (auto& kv : simplex_key) if (kv.first.size() == 1) vs.push_back(kv.first[0]);
@@ -142,6 +144,32 @@ struct World {
       return true;
     }
     return false;
+  }
+
+  // General Z_2 chain complex (Morse-like complexes: insert_boundary takes the dimension explicitly when it cannot be deduced
+  // from the size of the boundary): a new cell of dimension d > 0 gets as boundary a random (d-1)-cycle, namely the sum of
+  // 1-3 elements of { 0, boundary of a present d-cell, a (d-1)-cell with empty boundary, two (d-1)-cells with the same
+  // boundary }.  So cells of positive dimension with an empty boundary, with an odd number of facets or with the boundary
+  // of another cell all occur, and d o d = 0 holds by induction.
+  bool propose_general(vh::Rng& r, ACell& out) {
+    int d;
+    { unsigned x = (unsigned)r.below(10); d = x < 3 ? 0 : x < 6 ? 1 : x < 9 ? 2 : 3; }
+    out = ACell(); out.key = next_key++; out.dim = d;
+    if (d == 0) return true;
+    auto bd = [](const ACell& c) { return std::set<int>(c.faces.begin(), c.faces.end()); };
+    std::vector<std::set<int>> pool;
+    pool.push_back({});
+    for (auto& c : order) if (c.dim == d) pool.push_back(bd(c));
+    for (auto& c : order) if (c.dim == d - 1 && c.faces.empty()) pool.push_back({c.key});
+    for (size_t i = 0; i < order.size(); ++i)
+      for (size_t j = i + 1; j < order.size(); ++j)
+        if (order[i].dim == d - 1 && order[j].dim == d - 1 && bd(order[i]) == bd(order[j])) pool.push_back({order[i].key, order[j].key});
+    std::set<int> b;
+    int k = 1 + (int)r.below(3);
+    for (int t = 0; t < k; ++t)
+      for (int x : pool[r.below(pool.size())]) { auto it = b.find(x); if (it == b.end()) b.insert(x); else b.erase(it); }
+    out.faces.assign(b.begin(), b.end());
+    return true;
   }
 
   // random complex with about n cells, then a uniformly-greedy random linear extension of the face order
